@@ -30,6 +30,9 @@ type C17Case struct {
 	Cuts     []int        `json:"cuts,omitempty"`
 	BufSize  int          `json:"bufsize,omitempty"`
 	Gos      []GoCase     `json:"gos,omitempty"` // iterator, unfolder
+	// KeyCache > 0: the reused unfolder has its key cache enabled with that
+	// capacity (the new unfolder it is compared with has none)
+	KeyCache int `json:"key_cache,omitempty"`
 }
 
 type parseMethod interface {
@@ -238,6 +241,10 @@ func checkC17(ci any, info *CaseInfo) string {
 		if err != nil {
 			return "harness: " + err.Error()
 		}
+		if c.KeyCache > 0 {
+			info.Class("unfolder_key_cache")
+			u.EnableKeyCache(c.KeyCache)
+		}
 		for i := range c.Gos {
 			g := &c.Gos[i]
 			typ, rv, err := g.build()
@@ -350,6 +357,9 @@ func drawC17(t *rapid.T) any {
 		for i := range c.Gos {
 			c.Gos[i].Route = rs[i]
 		}
+		if rapid.IntRange(0, 2).Draw(t, "keycache") == 0 {
+			c.KeyCache = rapid.SampledFrom([]int{1, 2, 3, 8}).Draw(t, "keycachecap")
+		}
 	}
 	return c
 }
@@ -357,7 +367,7 @@ func drawC17(t *rapid.T) any {
 func init() {
 	register(&Property{
 		ID:            "C17",
-		Rule:          "histories of 2..5 complete documents on ONE instance, per instance kind: 3 encoders (generated event streams incl. extended events, typed containers, options), 3 parsers (Parser.Parse for any value, Parser.Write for self-delimiting container documents; own and foreign documents incl. counted/typed containers), 3 pull decoders (byte slice and reader with generated read schedules), the fold iterator (generated Go types/values incl. pool types) and the unfolder (SetTarget + document via direct/json/ubjson/cborl); after EVERY step the instance's output for that document is compared with a fresh instance's (encoder bytes; parser/decoder events; iterator value; unfolder target) and all stack-depth hooks must be idle; non-trivial = history >= 2 documents (encoders: of at least two different shapes); distinct by case hash",
+		Rule:          "histories of 2..5 complete documents on ONE instance, per instance kind: 3 encoders (generated event streams incl. extended events, typed containers, options), 3 parsers (Parser.Parse for any value, Parser.Write for self-delimiting container documents; own and foreign documents incl. counted/typed containers), 3 pull decoders (byte slice and reader with generated read schedules), the fold iterator (generated Go types/values incl. pool types) and the unfolder (SetTarget + document via direct/json/ubjson/cborl; 1 in 3 histories with the key cache enabled at capacity 1, 2, 3 or 8); after EVERY step the instance's output for that document is compared with a fresh instance's (encoder bytes; parser/decoder events; iterator value; unfolder target) and all stack-depth hooks must be idle; non-trivial = history >= 2 documents (encoders: of at least two different shapes); distinct by case hash",
 		New:           func() any { return &C17Case{} },
 		Draw:          drawC17,
 		Check:         checkC17,
